@@ -192,7 +192,7 @@ pub mod tstd {
         ensures #[trigger] slice_contains(s, x) == s.contains(x);
 
     pub broadcast group group_tstd {
-        axiom_slice_contains_eq, axiom_slice_contains_i32, axiom_slice_contains_usize, axiom_vec_into_iter_seq, axiom_cmp_min_i32, axiom_slice_sorted_i32,
+        axiom_slice_contains_eq, axiom_slice_contains_i32, axiom_slice_contains_usize, axiom_vec_into_iter_seq, axiom_cmp_min_i32, axiom_cmp_max_i32, axiom_cmp_max_usize, axiom_slice_sorted_unstable_i32, axiom_slice_sorted_i32,
     }
     pub uninterp spec fn into_iter_seq<T, I>(i: I) -> Seq<T>;
     pub assume_specification<T, A: Allocator, I: IntoIterator<Item = T>>[<Vec<T, A> as Extend<T>>::extend::<I>](v: &mut Vec<T, A>, iter: I)
@@ -261,14 +261,120 @@ pub mod tstd {
     pub assume_specification[f32::max](x: f32, y: f32) -> (r: f32) ensures r == f_max(x, y);
     pub assume_specification[f32::clamp](x: f32, lo: f32, hi: f32) -> (r: f32) requires crate::spec::f32_le(lo, hi), ensures r == crate::spec::f_clamp(x, lo, hi);
     pub assume_specification[f32::min](x: f32, y: f32) -> (r: f32) ensures r == f_min(x, y);
+    // more f32 library functions a change might start using: total, deterministic, otherwise uninterpreted
+    pub assume_specification[f32::hypot](x: f32, y: f32) -> (r: f32) ensures r == crate::spec::fx_hypot(x, y);
+    pub assume_specification[f32::powi](x: f32, n: i32) -> (r: f32) ensures r == crate::spec::fx_powi(x, n);
+    pub assume_specification[f32::ln](x: f32) -> (r: f32) ensures r == crate::spec::fx_ln(x);
+    pub assume_specification[f32::log10](x: f32) -> (r: f32) ensures r == crate::spec::fx_log10(x);
+    pub assume_specification[f32::log2](x: f32) -> (r: f32) ensures r == crate::spec::fx_log2(x);
+    pub assume_specification[f32::exp2](x: f32) -> (r: f32) ensures r == crate::spec::fx_exp2(x);
+    pub assume_specification[f32::mul_add](x: f32, y: f32, z: f32) -> (r: f32) ensures r == crate::spec::fx_mul_add(x, y, z);
+    pub assume_specification[f32::rem_euclid](x: f32, y: f32) -> (r: f32) ensures r == crate::spec::fx_rem_euclid(x, y);
+    pub assume_specification[f32::fract](x: f32) -> (r: f32) ensures r == crate::spec::fx_fract(x);
+    pub assume_specification[f32::recip](x: f32) -> (r: f32) ensures r == crate::spec::fx_recip(x);
+    pub assume_specification[f32::copysign](x: f32, y: f32) -> (r: f32) ensures r == crate::spec::fx_copysign(x, y);
+    pub assume_specification[f32::to_degrees](x: f32) -> (r: f32) ensures r == crate::spec::fx_to_degrees(x);
+    pub assume_specification[f32::to_radians](x: f32) -> (r: f32) ensures r == crate::spec::fx_to_radians(x);
+    pub assume_specification[f32::atan2](x: f32, y: f32) -> (r: f32) ensures r == crate::spec::fx_atan2(x, y);
+    pub assume_specification[f32::atan](x: f32) -> (r: f32) ensures r == crate::spec::fx_atan(x);
+    pub assume_specification[f32::asin](x: f32) -> (r: f32) ensures r == crate::spec::fx_asin(x);
+    pub assume_specification[f32::acos](x: f32) -> (r: f32) ensures r == crate::spec::fx_acos(x);
+    pub assume_specification[f32::tanh](x: f32) -> (r: f32) ensures r == crate::spec::fx_tanh(x);
+    pub assume_specification[f32::sinh](x: f32) -> (r: f32) ensures r == crate::spec::fx_sinh(x);
+    pub assume_specification[f32::cosh](x: f32) -> (r: f32) ensures r == crate::spec::fx_cosh(x);
+    pub assume_specification[f32::exp_m1](x: f32) -> (r: f32) ensures r == crate::spec::fx_exp_m1(x);
+    pub assume_specification[f32::ln_1p](x: f32) -> (r: f32) ensures r == crate::spec::fx_ln_1p(x);
+    pub assume_specification[f32::cbrt](x: f32) -> (r: f32) ensures r == crate::spec::fx_cbrt(x);
+    pub assume_specification[f32::log](x: f32, y: f32) -> (r: f32) ensures r == crate::spec::fx_log(x, y);
+    pub assume_specification[f32::from_bits](b: u32) -> (r: f32) ensures r == crate::spec::fx_from_bits(b);
+    pub assume_specification[f32::is_normal](x: f32) -> (r: bool) ensures r == crate::spec::fx_is_normal(x);
+    /// the sign bit is clear (true for +0.0 and for NaNs with a clear sign bit)
+    pub assume_specification[f32::is_sign_positive](x: f32) -> (r: bool) ensures r == !f_is_sign_negative(x);
+    pub assume_specification[f32::total_cmp](x: &f32, y: &f32) -> (r: core::cmp::Ordering) ensures r == crate::spec::fx_total_cmp(*x, *y);
+    // Duration accessors: deterministic functions of the duration, nothing else assumed
+    pub assume_specification[std::time::Duration::as_secs](d: &std::time::Duration) -> (r: u64) ensures r == crate::spec::dur_as_secs(*d);
+    pub assume_specification[std::time::Duration::as_millis](d: &std::time::Duration) -> (r: u128) ensures r == crate::spec::dur_as_millis(*d);
+    pub assume_specification[std::time::Duration::as_micros](d: &std::time::Duration) -> (r: u128) ensures r == crate::spec::dur_as_micros(*d);
+    pub assume_specification[std::time::Duration::as_nanos](d: &std::time::Duration) -> (r: u128) ensures r == crate::spec::dur_as_nanos(*d);
+    pub assume_specification[std::time::Duration::as_secs_f32](d: &std::time::Duration) -> (r: f32) ensures r == crate::spec::dur_as_secs_f32(*d);
+    pub assume_specification[std::time::Duration::as_secs_f64](d: &std::time::Duration) -> (r: f64) ensures r == crate::spec::dur_as_secs_f64(*d);
+    pub assume_specification[std::time::Duration::subsec_millis](d: &std::time::Duration) -> (r: u32) ensures r == crate::spec::dur_subsec_millis(*d);
+    pub assume_specification[std::time::Duration::subsec_nanos](d: &std::time::Duration) -> (r: u32) ensures r == crate::spec::dur_subsec_nanos(*d);
+    pub assume_specification[std::time::Duration::from_secs](s: u64) -> std::time::Duration;
+    pub assume_specification[std::time::Duration::from_micros](s: u64) -> std::time::Duration;
+    pub assume_specification[std::time::Duration::from_nanos](s: u64) -> std::time::Duration;
+    // further integer methods a change might start using (std documentation; the ones that can panic carry the panic condition as a precondition)
+    pub assume_specification[i32::checked_neg](x: i32) -> (r: Option<i32>)
+        ensures r == (if x == i32::MIN { None::<i32> } else { Some((-(x as int)) as i32) });
+    pub assume_specification[i32::checked_abs](x: i32) -> (r: Option<i32>)
+        ensures r == (if x == i32::MIN { None::<i32> } else if x < 0 { Some((-(x as int)) as i32) } else { Some(x) });
+    pub assume_specification[i32::wrapping_neg](x: i32) -> (r: i32)
+        ensures r == (if x == i32::MIN { i32::MIN } else { (-(x as int)) as i32 });
+    pub assume_specification[i32::saturating_neg](x: i32) -> (r: i32)
+        ensures r == (if x == i32::MIN { i32::MAX } else { (-(x as int)) as i32 });
+    pub assume_specification[i32::is_negative](x: i32) -> (r: bool) ensures r == (x < 0);
+    pub assume_specification[i32::is_positive](x: i32) -> (r: bool) ensures r == (x > 0);
+    pub assume_specification[i32::abs_diff](x: i32, y: i32) -> (r: u32)
+        ensures r == (if x >= y { x - y } else { y - x });
+    pub assume_specification[usize::abs_diff](x: usize, y: usize) -> (r: usize)
+        ensures r == (if x >= y { x - y } else { y - x });
+    /// std: panics on overflow in debug builds (the crate's tests run with overflow checks); the precondition is the absence of overflow
+    pub assume_specification[i32::pow](x: i32, e: u32) -> (r: i32)
+        requires in_i32(vstd::arithmetic::power::pow(x as int, e as nat)),
+        ensures r == vstd::arithmetic::power::pow(x as int, e as nat);
+    pub assume_specification[usize::pow](x: usize, e: u32) -> (r: usize)
+        requires vstd::arithmetic::power::pow(x as int, e as nat) <= usize::MAX,
+        ensures r == vstd::arithmetic::power::pow(x as int, e as nat);
+    pub assume_specification[i32::checked_pow](x: i32, e: u32) -> (r: Option<i32>)
+        ensures r == (if in_i32(vstd::arithmetic::power::pow(x as int, e as nat)) { Some(vstd::arithmetic::power::pow(x as int, e as nat) as i32) } else { None::<i32> });
+    /// std: panics if rhs is zero, overflows for (MIN, -1); the quotient that goes with rem_euclid (0 <= remainder)
+    pub assume_specification[i32::div_euclid](x: i32, m: i32) -> (r: i32)
+        requires m != 0, !(x == i32::MIN && m == -1),
+        ensures r == (x as int) / (m as int);
+    pub assume_specification[usize::rem_euclid](x: usize, m: usize) -> (r: usize)
+        requires m != 0,
+        ensures r == (x as int) % (m as int);
+    pub assume_specification[usize::is_power_of_two](x: usize) -> (r: bool) ensures r == crate::spec::usize_is_pow2(x);
+    pub assume_specification<T: Ord>[core::cmp::max::<T>](a: T, b: T) -> (r: T)
+        ensures r == crate::spec::cmp_max_spec(a, b);
+    pub broadcast axiom fn axiom_cmp_max_i32(a: i32, b: i32)
+        ensures #[trigger] crate::spec::cmp_max_spec(a, b) == (if a >= b { a } else { b });
+    pub broadcast axiom fn axiom_cmp_max_usize(a: usize, b: usize)
+        ensures #[trigger] crate::spec::cmp_max_spec(a, b) == (if a >= b { a } else { b });
+    // Option combinators without closures
+    pub assume_specification<T>[Option::<T>::or](a: Option<T>, b: Option<T>) -> (r: Option<T>)
+        ensures r == (if a is Some { a } else { b });
+    pub assume_specification<T>[Option::<T>::xor](a: Option<T>, b: Option<T>) -> (r: Option<T>)
+        ensures r == (if a is Some && b is None { a } else if a is None && b is Some { b } else { None::<T> });
+    pub assume_specification<T, U>[Option::<T>::zip::<U>](a: Option<T>, b: Option<U>) -> (r: Option<(T, U)>)
+        ensures r == (if a is Some && b is Some { Some((a->0, b->0)) } else { None::<(T, U)> });
+    pub assume_specification<T>[Option::<T>::replace](a: &mut Option<T>, v: T) -> (r: Option<T>)
+        ensures r == *old(a), *final(a) == Some(v);
+    pub assume_specification<T, A: Allocator>[Vec::<T, A>::capacity](v: &Vec<T, A>) -> (r: usize)
+        ensures r >= v@.len();
+    pub assume_specification<T, A: Allocator>[Vec::<T, A>::shrink_to_fit](v: &mut Vec<T, A>)
+        ensures final(v)@ == old(v)@;
+    /// the unstable sort orders the slice like the stable one (std: "sorts the slice"); which of several equal elements comes first is the only difference
+    pub uninterp spec fn slice_sorted_unstable<T>(s: Seq<T>) -> Seq<T>;
+    pub assume_specification<T: Ord>[<[T]>::sort_unstable](s: &mut [T])
+        ensures final(s)@ == slice_sorted_unstable(old(s)@);
+    /// equal i32s are indistinguishable, so for i32 the two sorts agree
+    pub broadcast axiom fn axiom_slice_sorted_unstable_i32(s: Seq<i32>)
+        ensures #[trigger] slice_sorted_unstable(s) == slice_sorted(s);
+
 
     // wall clock: now() / elapsed() return arbitrary values (no assumption about time passing)
     #[verifier::external_type_specification]
     #[verifier::external_body]
     pub struct ExInstant(std::time::Instant);
     pub assume_specification[std::time::Instant::now]() -> std::time::Instant;
-    pub assume_specification[std::time::Instant::elapsed](i: &std::time::Instant) -> std::time::Duration;
-    pub assume_specification[std::time::Duration::from_millis](ms: u64) -> std::time::Duration;
+    /// `d` is a value the clock returned for the time since `i` (nothing is assumed about its size: time passes between readings)
+    pub uninterp spec fn elapsed_reading(i: std::time::Instant, d: std::time::Duration) -> bool;
+    pub assume_specification[std::time::Instant::elapsed](i: &std::time::Instant) -> (r: std::time::Duration)
+        ensures elapsed_reading(*i, r);
+    pub uninterp spec fn dur_from_millis(ms: u64) -> std::time::Duration;
+    pub assume_specification[std::time::Duration::from_millis](ms: u64) -> (r: std::time::Duration)
+        ensures r == dur_from_millis(ms);
     pub uninterp spec fn duration_cmp(a: std::time::Duration, b: std::time::Duration) -> Option<core::cmp::Ordering>;
     pub assume_specification[<std::time::Duration as PartialOrd>::partial_cmp](a: &std::time::Duration, b: &std::time::Duration) -> (r: Option<core::cmp::Ordering>)
         ensures r == duration_cmp(*a, *b);
@@ -326,6 +432,43 @@ pub mod spec {
     pub uninterp spec fn f_pi() -> f32;
     #[verifier::external_body]
     pub fn f32_pi() -> (r: f32) ensures r == f_pi() { std::f32::consts::PI }
+    // R7c (continued): the other constants of core::f32::consts, should a change start using them: wrappers returning the constant itself; the values are uninterpreted
+    pub uninterp spec fn f_const_tau() -> f32;
+    #[verifier::external_body] pub fn f32_const_tau() -> (r: f32) ensures r == f_const_tau() { std::f32::consts::TAU }
+    pub uninterp spec fn f_const_e() -> f32;
+    #[verifier::external_body] pub fn f32_const_e() -> (r: f32) ensures r == f_const_e() { std::f32::consts::E }
+    pub uninterp spec fn f_const_frac_pi_2() -> f32;
+    #[verifier::external_body] pub fn f32_const_frac_pi_2() -> (r: f32) ensures r == f_const_frac_pi_2() { std::f32::consts::FRAC_PI_2 }
+    pub uninterp spec fn f_const_frac_pi_3() -> f32;
+    #[verifier::external_body] pub fn f32_const_frac_pi_3() -> (r: f32) ensures r == f_const_frac_pi_3() { std::f32::consts::FRAC_PI_3 }
+    pub uninterp spec fn f_const_frac_pi_4() -> f32;
+    #[verifier::external_body] pub fn f32_const_frac_pi_4() -> (r: f32) ensures r == f_const_frac_pi_4() { std::f32::consts::FRAC_PI_4 }
+    pub uninterp spec fn f_const_frac_pi_6() -> f32;
+    #[verifier::external_body] pub fn f32_const_frac_pi_6() -> (r: f32) ensures r == f_const_frac_pi_6() { std::f32::consts::FRAC_PI_6 }
+    pub uninterp spec fn f_const_frac_pi_8() -> f32;
+    #[verifier::external_body] pub fn f32_const_frac_pi_8() -> (r: f32) ensures r == f_const_frac_pi_8() { std::f32::consts::FRAC_PI_8 }
+    pub uninterp spec fn f_const_frac_1_pi() -> f32;
+    #[verifier::external_body] pub fn f32_const_frac_1_pi() -> (r: f32) ensures r == f_const_frac_1_pi() { std::f32::consts::FRAC_1_PI }
+    pub uninterp spec fn f_const_frac_2_pi() -> f32;
+    #[verifier::external_body] pub fn f32_const_frac_2_pi() -> (r: f32) ensures r == f_const_frac_2_pi() { std::f32::consts::FRAC_2_PI }
+    pub uninterp spec fn f_const_frac_2_sqrt_pi() -> f32;
+    #[verifier::external_body] pub fn f32_const_frac_2_sqrt_pi() -> (r: f32) ensures r == f_const_frac_2_sqrt_pi() { std::f32::consts::FRAC_2_SQRT_PI }
+    pub uninterp spec fn f_const_sqrt_2() -> f32;
+    #[verifier::external_body] pub fn f32_const_sqrt_2() -> (r: f32) ensures r == f_const_sqrt_2() { std::f32::consts::SQRT_2 }
+    pub uninterp spec fn f_const_frac_1_sqrt_2() -> f32;
+    #[verifier::external_body] pub fn f32_const_frac_1_sqrt_2() -> (r: f32) ensures r == f_const_frac_1_sqrt_2() { std::f32::consts::FRAC_1_SQRT_2 }
+    pub uninterp spec fn f_const_ln_2() -> f32;
+    #[verifier::external_body] pub fn f32_const_ln_2() -> (r: f32) ensures r == f_const_ln_2() { std::f32::consts::LN_2 }
+    pub uninterp spec fn f_const_ln_10() -> f32;
+    #[verifier::external_body] pub fn f32_const_ln_10() -> (r: f32) ensures r == f_const_ln_10() { std::f32::consts::LN_10 }
+    pub uninterp spec fn f_const_log2_e() -> f32;
+    #[verifier::external_body] pub fn f32_const_log2_e() -> (r: f32) ensures r == f_const_log2_e() { std::f32::consts::LOG2_E }
+    pub uninterp spec fn f_const_log2_10() -> f32;
+    #[verifier::external_body] pub fn f32_const_log2_10() -> (r: f32) ensures r == f_const_log2_10() { std::f32::consts::LOG2_10 }
+    pub uninterp spec fn f_const_log10_e() -> f32;
+    #[verifier::external_body] pub fn f32_const_log10_e() -> (r: f32) ensures r == f_const_log10_e() { std::f32::consts::LOG10_E }
+    pub uninterp spec fn f_const_log10_2() -> f32;
+    #[verifier::external_body] pub fn f32_const_log10_2() -> (r: f32) ensures r == f_const_log10_2() { std::f32::consts::LOG10_2 }
     // R7c: the f32 associated constants (no Verus specification for core::f32 constants): wrappers returning the constant itself
     pub uninterp spec fn f_max_value() -> f32;
     pub uninterp spec fn f_min_value() -> f32;
@@ -390,6 +533,20 @@ pub mod spec {
     pub fn parse_f32(s: &String) -> (r: Result<f32, core::num::ParseFloatError>)
         ensures match r { Ok(v) => parse_f32_spec(s@) == Some(v), Err(_) => parse_f32_spec(s@) is None },
     { s.parse::<f32>() }
+    // R17: `Vec::with_capacity(n)` panics ("capacity overflow") when n elements of T exceed isize::MAX bytes.  cap_ok::<T>(n) stands for "they fit";
+    // it is known for n within the envelope's allocation bound (2^31-1 elements; the crate's element types are a few bytes to a few hundred bytes)
+    // and for n up to the length of a vector that already exists in memory (ASSUMED: a 2^48-byte address space and element types below 32 KiB,
+    // so that many elements of any of the crate's types stay far below isize::MAX bytes).
+    pub uninterp spec fn cap_ok<T>(n: usize) -> bool;
+    pub broadcast axiom fn ax_cap_small<T>(n: usize)
+        ensures n <= 0x7fff_ffff ==> #[trigger] cap_ok::<T>(n);
+    pub broadcast axiom fn ax_cap_existing<T, U>(v: Vec<U>, n: usize)
+        ensures #![trigger v@.len(), cap_ok::<T>(n)] n <= v@.len() ==> cap_ok::<T>(n);
+    #[verifier::external_body]
+    pub fn vec_with_capacity<T>(n: usize) -> (r: Vec<T>)
+        requires cap_ok::<T>(n),
+        ensures r@.len() == 0,
+    { Vec::with_capacity(n) }
     // R14: the additive identity std's `impl Sum for f32` starts from (0.0 or -0.0 depending on the toolchain): the wrapper's body is the empty sum itself
     pub uninterp spec fn f_sum_identity() -> f32;
     #[verifier::external_body]
@@ -564,7 +721,7 @@ pub mod spec {
     pub assume_specification[<crate::push::graph::Graph as Clone>::clone](a: &crate::push::graph::Graph) -> (b: crate::push::graph::Graph) ensures b == *a;
     pub assume_specification[<crate::push::io::PushMessage as Clone>::clone](a: &crate::push::io::PushMessage) -> (b: crate::push::io::PushMessage) ensures b == *a;
     pub broadcast group group_clone {
-        ax_string_key_model, ax_string_obeys_eq, ax_string_eq_spec, ax_str_of_string, ax_string_borrow_contains, ax_string_borrow_maps, ax_string_borrow_maps_contains, ax_clone_item, ax_clone_boolvector, ax_clone_intvector, ax_clone_floatvector, ax_clone_index, ax_clone_graph, ax_clone_message,
+        ax_cap_small, ax_cap_existing, ax_string_key_model, ax_string_obeys_eq, ax_string_eq_spec, ax_str_of_string, ax_string_borrow_contains, ax_string_borrow_maps, ax_string_borrow_maps_contains, ax_clone_item, ax_clone_boolvector, ax_clone_intvector, ax_clone_floatvector, ax_clone_index, ax_clone_graph, ax_clone_message,
     }
     
     /// C01's resource envelope: every stack, vector and record is smaller than 2^31-1 items.
@@ -615,4 +772,41 @@ pub mod spec {
     pub uninterp spec fn f_powf(x: f32, y: f32) -> f32;
     pub uninterp spec fn f_max(x: f32, y: f32) -> f32;
     pub uninterp spec fn f_min(x: f32, y: f32) -> f32;
+    pub uninterp spec fn fx_hypot(x: f32, y: f32) -> f32;
+    pub uninterp spec fn fx_powi(x: f32, n: i32) -> f32;
+    pub uninterp spec fn fx_ln(x: f32) -> f32;
+    pub uninterp spec fn fx_log10(x: f32) -> f32;
+    pub uninterp spec fn fx_log2(x: f32) -> f32;
+    pub uninterp spec fn fx_exp2(x: f32) -> f32;
+    pub uninterp spec fn fx_mul_add(x: f32, y: f32, z: f32) -> f32;
+    pub uninterp spec fn fx_rem_euclid(x: f32, y: f32) -> f32;
+    pub uninterp spec fn fx_fract(x: f32) -> f32;
+    pub uninterp spec fn fx_recip(x: f32) -> f32;
+    pub uninterp spec fn fx_copysign(x: f32, y: f32) -> f32;
+    pub uninterp spec fn fx_to_degrees(x: f32) -> f32;
+    pub uninterp spec fn fx_to_radians(x: f32) -> f32;
+    pub uninterp spec fn fx_atan2(x: f32, y: f32) -> f32;
+    pub uninterp spec fn fx_atan(x: f32) -> f32;
+    pub uninterp spec fn fx_asin(x: f32) -> f32;
+    pub uninterp spec fn fx_acos(x: f32) -> f32;
+    pub uninterp spec fn fx_tanh(x: f32) -> f32;
+    pub uninterp spec fn fx_sinh(x: f32) -> f32;
+    pub uninterp spec fn fx_cosh(x: f32) -> f32;
+    pub uninterp spec fn fx_exp_m1(x: f32) -> f32;
+    pub uninterp spec fn fx_ln_1p(x: f32) -> f32;
+    pub uninterp spec fn fx_cbrt(x: f32) -> f32;
+    pub uninterp spec fn fx_log(x: f32, y: f32) -> f32;
+    pub uninterp spec fn fx_from_bits(b: u32) -> f32;
+    pub uninterp spec fn fx_is_normal(x: f32) -> bool;
+    pub uninterp spec fn fx_total_cmp(x: f32, y: f32) -> core::cmp::Ordering;
+    pub uninterp spec fn dur_as_secs(d: std::time::Duration) -> u64;
+    pub uninterp spec fn dur_as_millis(d: std::time::Duration) -> u128;
+    pub uninterp spec fn dur_as_micros(d: std::time::Duration) -> u128;
+    pub uninterp spec fn dur_as_nanos(d: std::time::Duration) -> u128;
+    pub uninterp spec fn dur_as_secs_f32(d: std::time::Duration) -> f32;
+    pub uninterp spec fn dur_as_secs_f64(d: std::time::Duration) -> f64;
+    pub uninterp spec fn dur_subsec_millis(d: std::time::Duration) -> u32;
+    pub uninterp spec fn dur_subsec_nanos(d: std::time::Duration) -> u32;
+    pub uninterp spec fn usize_is_pow2(x: usize) -> bool;
+    pub uninterp spec fn cmp_max_spec<T>(a: T, b: T) -> T;
 }
